@@ -304,6 +304,13 @@ var c01Programs = []string{
 	"switch (a) { case 1: b; default: c }", "label: while (a) do { break label } while (b)", "import a, {b as c} from 'd'; export default function () {}; export {e as f}; export * from 'g';",
 	"a = b /c/ d; e = /[/]\\//g.test(f); g = h++ + ++i - -j;", "o = {get a() {}, set a(v) {}, async *b() {}, [c]: d, e, 'f': 1, 2: 3};", "if (a) b\nelse c\nd\n++e\nreturn\nf", "a?.b?.[c]?.(d); new.target; import.meta; new a.b(c)(d); super.x;",
 	"!function(){}(); (async () => { await 0 })(); x = async (a) => a; y = async a => a; (a, b);", "with (a) debugger; var yield, await, async, let, of, get, set, static;", "'use strict'; \"use asm\"; 0b101n + 0o17 + 0xFFn + 1_000.5e-3 + .5;", "<!-- html comment\na --> b\n/* c */ // d",
+	// documents for the other consumers (every truncation of each is tried)
+	"<!DOCTYPE html><html lang=en><head><title>a&amp;b</title><script>if (a<b) {x='</scr'+'ipt>'} <!-- <script> --></script><style>a{b:c}</style></head><body class='x y' id=\"z\" data-a=b hidden><p>t<br/><svg><path d=\"M0\"/></svg><math><mi>x</mi></math><textarea></textarea><![CDATA[x]]><!-- c --></p></body></html>",
+	"<p>{{ printf \"a\\\"b\" }}</p><a href=\"{{ .URL | safe }}\" {{ if .X }}checked{{ end }}>{{/* c */}}<script>var x = {{ .J }};</script>",
+	"<div><% if (a) { %><b><%= 'it\\'s' %></b><% } %><?php echo \"a\\\"b\"; ?><?= $x ?></div>",
+	"<?xml version=\"1.0\" encoding='UTF-8'?><!DOCTYPE a [<!ENTITY e \"x>y\">]><a b=\"c\" d='e'><!-- f --><![CDATA[g]]><h/>text&amp;<?pi x?></a>",
+	"@charset \"utf-8\"; @import url(a.css) screen; @media (max-width:400px) and print { a:hover > b ~ c + d[e=\"f\" i]::before { color: #fff !important; margin: -1.5e3px 50% calc(1px + 2em) url( 'x' ); --v: { a: b }; *zoom: 1; } } @font-face { font-family: x; src: url(y) } a{b:c;d:e}/* f */ <!-- --> u+1f?? \\66 oo",
+	"{\"a\": [1, -2.5e+3, true, false, null, \"s\\n\\u00e9\\\"\", {\"b\": {}}, []], \"c\" : \"d\"}",
 }
 
 func c01Oracle(r *Rng, tier string, rep *Report) {
@@ -499,7 +506,7 @@ var unaryJSONModel = &Model{
 
 func init() {
 	props["C01"] = &PropSpec{
-		Models: []*Model{unaryJSONModel},
+		Models:  []*Model{unaryJSONModel},
 		Oracles: []*Oracle{{Name: "c01-no-crash-hang-overread", Run: c01Oracle}},
 	}
 }
